@@ -428,12 +428,43 @@ def _bulged_query(body, bulge, crs, log):
         def to_crs(self, crs_, resolution=None, *a, **kw):
             from odc.geo.crs import norm_crs
 
+            import math
+
             c = norm_crs(crs_)
             log.append(("to_crs", c, resolution))
             if c == self.crs:
                 return self
-            dense = resolution is not None and (resolution == "auto" or resolution == resolution and resolution not in (float("inf"),))
-            return _Rects([body, bulge] if dense else [body], c)
+            if resolution is None:
+                dense = False
+            elif isinstance(resolution, str):
+                # "auto": sqrt(area) * 4 / 100 -- nothing for a geometry without area (the library's own rule)
+                dense = bool(And(body[2] > body[0], body[3] > body[1]))
+            elif isinstance(resolution, symx.Sym):
+                dense = bool(resolution > 0)
+            else:
+                dense = math.isfinite(resolution) and resolution > 0
+            return _Mapped([body, bulge] if dense else [body], c)
+
+    class _Mapped(_Rects):
+        """the image in the raster's CRS; project() maps it on into the pixel plane (axis-aligned grid)"""
+
+        def to_crs(self, crs_, *a, **kw):
+            return self
+
+        def transform(self, func):
+            out = []
+            for l_, b_, r_, t_ in self.rects:
+                x0, y0 = func(l_, t_)
+                x1, y1 = func(r_, b_)
+                out.append((x0, y0, x1, y1))
+            return _Mapped(out, None)
+
+        @property
+        def geom(self):
+            return self
+
+    _Bulged.transform = _Mapped.transform
+    _Bulged.geom = _Mapped.geom
 
     return _Bulged([body], crs)
 
@@ -448,7 +479,7 @@ def h_tiles_other_crs_bulge(via):
     g = gbx.GeoBox((48, 64), Affine(rconst(10), 0.0, rconst(0), 0.0, rconst(-10), rconst(480)), "epsg:3857")  # world box [0,640] x [0,480]
     gbt = gbx.GeoboxTiles(g, (16, 16))  # 3 x 4 tiles of 160 x 160
     l, b, w, h = Real("l"), Real("b"), Real("w"), Real("h")
-    assume(And(w > 0, h > 0, w <= 300, h <= 300, l >= -100, l <= 700, b >= -100, b <= 600))
+    assume(And(w > 0, h >= 0, w <= 300, h <= 300, l >= -100, l <= 700, b >= -100, b <= 600))  # h = 0: a line
     m, bw, depth = Real("m"), Real("bulge_width"), Real("bulge_depth")
     assume(And(bw > 0, depth > 0, depth <= 60, m - bw / 2 >= l, m + bw / 2 <= l + w))  # between the corners
     body = (l, b, l + w, b + h)
@@ -457,6 +488,20 @@ def h_tiles_other_crs_bulge(via):
     q = _bulged_query(body, bulge, "epsg:4326", log)
     if via == "tiles":
         got = list(gbt.tiles(q))
+    elif via == "range_from_bbox":
+        import itertools
+
+        import odc.geo.geom as gm
+        from odc.geo.geom import BoundingBox
+
+        saved_box, saved_G = gm.box, gbx.Geometry
+        gm.box = lambda l_, b_, r_, t_, crs: q
+        gbx.Geometry = lambda g_, crs=None: g_
+        try:
+            yy, xx = gbt.range_from_bbox(BoundingBox(body[0], body[1], body[2], body[3], "epsg:4326"))
+        finally:
+            gm.box, gbx.Geometry = saved_box, saved_G
+        got = list(itertools.product(yy, xx))
     else:
         # dependency graph: the destination raster is the query's grid; its tile outline is the query
         class _DstBase:
@@ -515,6 +560,29 @@ def replay_bulge(param, model):
 
     from odc.geo.geobox import GeoBox, GeoboxTiles
 
+    if param["via"] == "range_from_bbox" or model.get("h") in (0, "0"):
+        # an Albers grid queried with a lon/lat box / a line along a parallel
+        import itertools
+
+        from odc.geo import geom
+        from odc.geo.geom import BoundingBox
+
+        gbt = GeoboxTiles(GeoBox.from_bbox((-2_000_000, -5_000_000, 2_500_000, -1_000_000), "epsg:3577", resolution=1000), (100, 100))
+        alli = list(itertools.product(range(gbt.shape[0]), range(gbt.shape[1])))
+        if param["via"] == "range_from_bbox":
+            q = BoundingBox(115, -40, 150, -38, "epsg:4326")
+            yy, xx = gbt.range_from_bbox(q)
+            got = set(itertools.product(yy, xx))
+            dense = q.polygon.to_crs("epsg:3577", resolution=0.01)
+            what = "GeoboxTiles(Albers 3577 grid, 1000 m, 100-px tiles over (-2e6,-5e6,2.5e6,-1e6)).range_from_bbox(BoundingBox(115,-40,150,-38,'epsg:4326'))"
+        else:
+            ln = geom.line([(115, -38), (150, -38)], "epsg:4326")
+            got = set(gbt.tiles(ln))
+            dense = geom.line([(115 + i * 0.01, -38) for i in range(3501)], "epsg:4326").to_crs("epsg:3577")
+            what = "tiles(line along the parallel 38S from 115E to 150E) on the same Albers grid"
+        want = {i for i in alli if dense.intersects(gbt[i].extent)}
+        missing = sorted(want - got)
+        return {"reproduced": bool(missing), "witness": what, "needed_but_not_listed": [list(map(int, t)) for t in missing][:30], "model": model}
     src = GeoBox.from_bbox((140, -40, 150, -30), "epsg:4326", shape=(60, 70))
     dst = src.to_crs("epsg:3577").pad(20)
     s = GeoboxTiles(src, ((17, 23, 20), (31, 9, 30)))
@@ -570,8 +638,8 @@ OBLIGATIONS = [
        descr="tiles(geometry) with a (multi-part) stand-in geometry: only tiles meeting a part (none for a geometry outside the raster), every tile meeting one in positive area",
        functions=("odc.geo.geobox.GeoboxTiles.tiles", "odc.geo.geobox.GeoboxTiles.range_from_bbox"), bounds="48 x 64 raster in 3 x 4 tiles; parts up to 100 x 100 units anywhere from far outside to inside",
        stubs=("union-of-rectangles geometry answering to_crs / boundingbox / disjoint exactly", "vertex-list tile footprints"), setup=setup_range_geom, timeout_ms=20000),
-    Ob("Q8_other_crs_bent_edges", h_tiles_other_crs_bulge, fixed(dict(via="tiles"), dict(via="grid_intersect")),
-       descr="a query polygon / destination tile in another CRS whose straight edge bends in the raster's CRS: tiles reached only through the bend are listed too (tile query and dependency graph)",
+    Ob("Q8_other_crs_bent_edges", h_tiles_other_crs_bulge, fixed(dict(via="tiles"), dict(via="grid_intersect"), dict(via="range_from_bbox")),
+       descr="a query polygon, line, bounding box or destination tile in another CRS whose straight edge bends in the raster's CRS: tiles reached only through the bend are listed too (tile query, box query and dependency graph)",
        functions=("odc.geo.geobox.GeoboxTiles.tiles", "odc.geo.geobox.GeoboxTiles.grid_intersect", "odc.geo.geobox.GeoboxTiles.range_from_bbox"),
        bounds="query rectangle, position / width / depth (<= 60 m) of the bend symbolic; 3x4 tiles of 16 px",
        stubs=("union-of-rectangles geometry whose to_crs() maps the vertices only unless a finite resolution is given (the library's own contract for to_crs); PROJ itself replaced by that stand-in, replay on real PROJ with a fixed witness",),
